@@ -27,3 +27,9 @@ func c01load(g *Gen, i int, prog []GenPkg) (types.Universe, error) {
 	}
 	return b.FindTypes()
 }
+
+func c06sigTypes(s *types.Signature) []*types.Type {
+	return append(append([]*types.Type{}, s.Parameters...), s.Results...)
+}
+func c06nameOf(s string) types.Name              { return parser.TcNameToName(s) }
+func c20comparable(t *types.Type) (bool, bool) { return false, false }
